@@ -1,4 +1,4 @@
-import PonyVerif.Lemmas.UndoKeys
+import PonyVerif.Lemmas.UndoCreate
 /-
   C13 — a modification that raises leaves the session exactly as it was.
 
@@ -177,20 +177,32 @@ theorem C13_failed_call_keeps_WF (sch : Schema) (s : Store) (op : Op) (e : Err) 
     | ok st => simp at h
     | err e' st => exact key _ hr e' st rfl
 
-/-- flush and every user call except the constructor and `obj.set(**kw)` — delete with cascades of any depth, every collection call
-    (assign, add, remove, clear), every single attribute assignment INCLUDING unique / composite-key attributes — keep the session
-    well-formed, whatever their outcome (a failing one by `C13_failed_call_keeps_WF`) -/
-theorem C13_WF_covered_step (sch : Schema) (s : Store) (op : Op) (hq : covered op = true) (hwf : WF sch s) : WF sch (step sch s op) := by
+/-- EVERY call keeps the session well-formed, whatever its outcome: flush, delete with cascades of any depth, every collection call,
+    attribute assignment (key attributes included), `obj.set(**kw)` and the constructor — for schemas of the kind Pony accepts
+    (`SchemaWf`: key attributes belong to the key's entity, `unique` only on int attributes, no collection inside a key), with the
+    decidable guard `createdOk`: the object made by a successful constructor call has status `created` -/
+theorem C13_WF_step (sch : Schema) (s : Store) (op : Op) (hsw : SchemaWf sch) (hwf : WF sch s) (hc : createdOk sch s op = true) :
+    WF sch (step sch s op) := by
   cases herr : (stepO sch s op).err with
   | some e => exact C13_failed_call_keeps_WF sch s op e hwf herr
   | none =>
     have key : ∀ st', run1 sch op { store := s } = .ok st' → WF sch st'.store :=
-      fun st' h => covered_call_keeps op s st' hq hwf.1 hwf.2.1 hwf.2.2 h
+      fun st' h => call_keeps hsw op s st' hwf.1 hwf.2.1 hwf.2.2 h hc
     unfold step stepO at *
     cases op with
     | flush ids => exact flush_keeps sch ids s hwf.1 hwf.2.1 hwf.2.2
-    | create ent pk vals => cases hq
-    | setMany o kw => cases hq
+    | create ent pk vals =>
+      simp only at herr ⊢
+      generalize hr : run1 sch (Op.create ent pk vals) { store := s } = r at herr ⊢
+      cases r with
+      | ok st => exact key st hr
+      | err e' st => simp at herr
+    | setMany o kw =>
+      simp only at herr ⊢
+      generalize hr : run1 sch (Op.setMany o kw) { store := s } = r at herr ⊢
+      cases r with
+      | ok st => exact key st hr
+      | err e' st => simp at herr
     | set o a v =>
       simp only at herr ⊢
       generalize hr : run1 sch (Op.set o a v) { store := s } = r at herr ⊢
@@ -222,23 +234,32 @@ theorem C13_WF_covered_step (sch : Schema) (s : Store) (op : Op) (hq : covered o
       | ok st => exact key st hr
       | err e' st => simp at herr
 
-/-- NOT PROVED here (kept as a statement; `C13_WF_covered_step` is its proved part): what is missing are successful Entity.__init__ and
-    Entity.set calls; Lemmas/UndoKeys.lean holds the forward specification of the index moves (`fwd_idxOkV`, `IdxOkV.of_keep`,
-    `idxOk_after_write`) that Entity.set needs: successful calls and flush keep the session well-formed.  Its second half (`IdxOk`: the
-    key indexes hold exactly the current key values of live objects) is the invariant of property C11; this check evaluates
-    `WF` on every state it visits, on the model (driver field `wf`) and on the real objects (engine `real_wf`). -/
-def C13_WF_invariant_full : Prop := ∀ (sch : Schema) (s : Store) (op : Op), WF sch s → WF sch (step sch s op)
+/-- the guard of `C13_WF_step` along a whole history -/
+def createdOkAll (sch : Schema) : Store → List Op → Bool
+  | _, [] => true
+  | s, op :: ops => createdOk sch s op && createdOkAll sch (step sch s op) ops
 
-/-- with that invariant, the property holds in every state reachable by any history of calls -/
-theorem C13_reachable (hinv : C13_WF_invariant_full) (sch : Schema) (history : List Op) (op : Op) (e : Err)
+/-- every state reachable by a history of calls (whose constructors left their objects `created`) is well-formed -/
+theorem C13_WF_reachable (sch : Schema) (hsw : SchemaWf sch) : ∀ (history : List Op) (s : Store), WF sch s → createdOkAll sch s history = true →
+    WF sch (run sch s history) := by
+  intro history
+  induction history with
+  | nil => intro s hs _; exact hs
+  | cons op ops ih =>
+    intro s hs hc
+    simp only [createdOkAll, Bool.and_eq_true] at hc
+    exact ih _ (C13_WF_step sch s op hsw hs hc.1) hc.2
+
+/-- THE PROPERTY IN EVERY REACHABLE STATE: after any history of calls (valid or failing, any mix of creates, assignments, set(**kw),
+    collection calls, deletes, flushes), a call that raises leaves every observable part of the session as it was -/
+theorem C13_reachable (sch : Schema) (hsw : SchemaWf sch) (history : List Op) (hc : createdOkAll sch {} history = true) (op : Op) (e : Err)
     (h : (stepO sch (run sch {} history) op).err = some e) :
-    observe (step sch (run sch {} history) op) = observe (run sch {} history) := by
-  have hwf : ∀ (ops : List Op) (s : Store), WF sch s → WF sch (run sch s ops) := by
-    intro ops
-    induction ops with
-    | nil => intro s hs; exact hs
-    | cons o ops ih => intro s hs; exact ih _ (hinv sch s o hs)
-  exact C13 sch _ op e (hwf history {} (C13_WF_init sch)) h
+    observe (step sch (run sch {} history) op) = observe (run sch {} history) :=
+  C13 sch _ op e (C13_WF_reachable sch hsw history {} (C13_WF_init sch) hc) h
+
+/-- the statement without the guard `createdOk` (NOT proved: it needs 'the object under construction is not deleted by its own
+    constructor', true of the code, where the constructor never calls `_delete_`) -/
+def C13_WF_invariant_full : Prop := ∀ (sch : Schema) (s : Store) (op : Op), SchemaWf sch → WF sch s → WF sch (step sch s op)
 
 /-! ### the hypotheses are satisfiable, the conclusion is not vacuous -/
 
@@ -257,7 +278,7 @@ example : (stepO demoSchema (run demoSchema {} demoHistory) (.delete 0)).err = s
 /-- ... after it registered undo entries (the child's reference, the reverse removal, the collection rewrite) -/
 example : (run1 demoSchema (.delete 0) { store := run demoSchema {} demoHistory }).st.trail.length = 3 := by decide
 
-/-- the guard of `C13_WF_covered_step` is met by the refused delete above and by the collection calls -/
-example : covered (.delete 0) = true ∧ covered (.add 0 0 [1]) = true ∧ covered (.set 1 1 (.val none)) = true ∧ covered (.flush []) = true := by decide
+/-- the guard of `C13_reachable` is met by the history above -/
+example : createdOkAll demoSchema {} demoHistory = true := by decide
 
 end PonyVerif.Props.C13
